@@ -141,7 +141,9 @@ public:
             copy_pixels(img._view,_view);
         else
         {
-            image tmp(img);
+            // copy into storage from this image's own allocator: swap() need not exchange allocators
+            image tmp(img._align_in_bytes, _alloc);
+            tmp.allocate_and_copy(img.dimensions(), img._view);
             swap(tmp);
         }
         return *this;
@@ -154,7 +156,9 @@ public:
             copy_pixels(img._view,_view);
         else
         {
-            image tmp(img);
+            // copy into storage from this image's own allocator: swap() need not exchange allocators
+            image tmp(img._align_in_bytes, _alloc);
+            tmp.allocate_and_copy(img.dimensions(), img._view);
             swap(tmp);
         }
         return *this;
